@@ -1127,18 +1127,30 @@ def build_soc(std, ic, t, dw=32):
 
 class SocTb:
     """Drives one bus transaction at a time on the test-bench master of a finalized SoC."""
-    def __init__(self, std, ic, t, dw=32):
+    def __init__(self, std, ic, t, dw=32, built=None):
+        """built = (top module, master interfaces, SoCBusHandler) for benches that do not use build_soc."""
         self.std, self.ic, self.t, self.dw = std, ic, t, dw
-        self.soc, self.ms = build_soc(std, ic, t, dw)
+        if built is None:
+            self.soc, self.ms = build_soc(std, ic, t, dw)
+            self.handler = self.soc.bus
+        else:
+            self.soc, self.ms, self.handler = built
         self.m = self.ms[0]
         self.n = LazyNetlist(self.soc)
         self.cycle = 0
+        self.err_cycles = 0          # cycles with interconnect.timeout.error = 1 (what SoC.finalize wires to ctrl)
+        self.slave_hook = None       # called before every settle with the cycle number (harness-played slaves)
 
     def bus_errors(self):
         self.n.settle()
         return self.n.getu(self.soc.ctrl._bus_errors.status)
 
     def _tick(self):
+        tm = getattr(self.handler._interconnect, "timeout", None)
+        if tm is not None and self.n.getu(tm.error):
+            self.err_cycles += 1
+        if self.slave_hook is not None:
+            self.slave_hook()
         self.n.tick()
         self.cycle += 1
 
@@ -1152,7 +1164,7 @@ class SocTb:
         read data or None, error indication seen at the master: all-ones/SLVERR)."""
         n, m, std = self.n, self.ms[master], self.std
         limit = limit or (self.t + 40)
-        arb = getattr(self.soc.bus._interconnect, "arbiter", None)
+        arb = getattr(self.handler._interconnect, "arbiter", None)
         gsig = None
         if arb is not None:
             gsig = arb.rr.grant if std == "wishbone" else (arb.rr_write.grant if write else arb.rr_read.grant)
@@ -1327,3 +1339,173 @@ def measure_env(inst, rng, cycles):
     else:
         stats = dict(getattr(mon, "stats", {}))
     return stats, msg
+
+
+# ---------------------------------------------------------------------------------------------------------
+# Glue: `SoCBusHandler.do_finalize` chooses the interconnect class.  One master and one slave whose region does NOT
+# start at 0 must get the shared interconnect (decoder + timeout); only a single slave at origin 0 is wired
+# point-to-point (no decoder, no timeout exists there: outside C11's obligation, see C06-p2p-* findings).
+
+class _RegSlave:
+    """Harness-played slave with one cycle of latency (registered decisions), mode "ok" or "silent"."""
+    def __init__(self, tb, s, std, dw):
+        self.tb, self.s, self.std, self.dw = tb, s, std, dw
+        self.mode = "ok"
+        self.seen = 0                # cycles in which the slave saw a request (cyc / a valid)
+        self.pend_b = self.pend_r = 0
+        self.DATA = 0xC0FFEE11 & ((1 << dw) - 1)
+
+    def set_mode(self, mode):
+        """Takes effect at once (between transactions)."""
+        self.mode = mode
+        n, s = self.tb.n, self.s
+        if self.std == "wishbone":
+            n.set(s.ack, 0)
+        else:
+            for sig in (s.aw.ready, s.w.ready, s.ar.ready):
+                n.set(sig, int(mode == "ok"))
+
+    def hook(self):
+        """Called after the cycle settled, before the clock edge: sample, then drive next cycle's outputs."""
+        n, s = self.tb.n, self.s
+        if self.std == "wishbone":
+            req = n.getu(s.cyc) and n.getu(s.stb)
+            self.seen += 1 if n.getu(s.cyc) else 0
+            acked = n.getu(s.ack)
+            n.set(s.ack, 1 if (req and not acked and self.mode == "ok") else 0)
+            n.set(s.dat_r, self.DATA)
+            return
+        ok = self.mode == "ok"
+        self.seen += 1 if (n.getu(s.aw.valid) or n.getu(s.w.valid) or n.getu(s.ar.valid)) else 0
+        if n.getu(s.aw.valid) and n.getu(s.aw.ready):
+            self.pend_b += 1
+        if n.getu(s.b.valid) and n.getu(s.b.ready):
+            self.pend_b -= 1
+        if n.getu(s.ar.valid) and n.getu(s.ar.ready):
+            self.pend_r += 1
+        if n.getu(s.r.valid) and n.getu(s.r.ready):
+            self.pend_r -= 1
+        for sig in (s.aw.ready, s.w.ready, s.ar.ready):
+            n.set(sig, int(ok))
+        n.set(s.b.valid, int(self.pend_b > 0))
+        n.set(s.b.resp, 0)
+        n.set(s.r.valid, int(self.pend_r > 0))
+        n.set(s.r.resp, 0)
+        n.set(s.r.data, self.DATA)
+        if self.std == "axi":
+            n.set(s.r.last, 1)
+
+
+def build_handler_1x1(std, t, origin, size, dw=32):
+    """One master, one slave, built through SoCBusHandler exactly as SoC code does."""
+    import envshim
+    from litex.gen import LiteXModule
+    from litex.soc.integration.soc import SoCBusHandler, SoCRegion
+    envshim.quiet_stderr()
+    bus = SoCBusHandler(standard=std, data_width=dw, address_width=32, timeout=t, interconnect="shared")
+    if std == "wishbone":
+        mk = lambda: wishbone.Interface(data_width=dw, address_width=32, addressing="word")
+    elif std == "axi-lite":
+        mk = lambda: axi_lite.AXILiteInterface(data_width=dw, address_width=32)
+    else:
+        mk = lambda: axi_full.AXIInterface(data_width=dw, address_width=32)
+    m, s = mk(), mk()
+    bus.add_master("tb", m)
+    bus.add_slave("dev", s, SoCRegion(origin=origin, size=size))
+    top = LiteXModule()
+    top.bus = bus
+    return top, m, s, bus
+
+
+def handler_1x1_scenario(std, t, rng, origin=0x30000000, size=0x1000, dw=32, nops=10):
+    """1 master x 1 slave at a non-zero origin: unmapped addresses and a silent slave must be terminated at the
+    exact bound with the error indication and one error pulse each; accesses answered by the slave are undisturbed;
+    an unmapped access must not reach the slave.  Returns (problems, number of timed-out ops)."""
+    top, m, s, bus = build_handler_1x1(std, t, origin, size, dw)
+    tb = SocTb(std, "shared", t, dw, built=(top, (m,), bus))
+    sl = _RegSlave(tb, s, std, dw)
+    tb.slave_hook = sl.hook
+    sl.set_mode("ok")
+    exact = t if std == "wishbone" else t + 2
+    problems, timeouts = [], 0
+    icname = type(bus._interconnect).__name__
+    kinds = ["unmapped", "silent", "ok"] + [rng.choice(("unmapped", "silent", "ok", "ok")) for _ in range(nops - 3)]
+    rng.shuffle(kinds)
+    for k, kind in enumerate(kinds):
+        wr = rng.random() < 0.4
+        sl.set_mode("silent" if kind == "silent" else "ok")
+        addr = rng.choice((0x0, 0x10, origin + 0x10000000, origin - 0x1000)) if kind == "unmapped" else \
+            origin + 4 * rng.randrange(8) * (dw // 32)
+        seen0, err0 = sl.seen, tb.err_cycles
+        lat, d, err = tb.access(addr, write=wr, data=rng.getrandbits(dw))
+        tag = "op %d (%s %s %#x, interconnect %s)" % (k, kind, "write" if wr else "read", addr, icname)
+        if kind in ("unmapped", "silent"):
+            timeouts += 1
+            if lat is None:
+                problems.append("%s: not terminated within %d cycles" % (tag, t + 40))
+                break
+            if lat != exact:
+                problems.append("%s: terminated after %d cycles, exact bound %d" % (tag, lat, exact))
+            if not err:
+                problems.append("%s: terminated without the error indication (data %s)" % (tag, hex(d) if d is not None else None))
+            if tb.err_cycles - err0 != 1:
+                problems.append("%s: %d error pulses, expected 1" % (tag, tb.err_cycles - err0))
+            if kind == "unmapped" and sl.seen != seen0:
+                problems.append("%s: the unmapped request reached the slave" % tag)
+        else:
+            if lat is None:
+                problems.append("%s: not completed (after %d timeouts)" % (tag, timeouts))
+                break
+            if err or (not wr and d != sl.DATA):
+                problems.append("%s: answered in time but disturbed (data %s, error indication %s)" % (tag, hex(d) if d is not None else None, err))
+            if tb.err_cycles != err0:
+                problems.append("%s: error pulse on a request answered in time" % tag)
+        tb.idle(rng.randint(1, 3))
+    return problems, timeouts
+
+
+def socmini_csr_only_scenario(std, t, rng, csr_origin=0xf0000000, nops=8):
+    """SoCMini whose ONLY slave is the CSR bridge at a non-zero origin, one test-bench master: still a decoder and a
+    timeout must exist (unmapped accesses terminate at the exact bound, bus_errors counts them, CSR reads work)."""
+    import envshim
+    from litex.build.sim import SimPlatform
+    from litex.build.generic_platform import Pins
+    from litex.soc.integration.soc_core import SoCMini
+    cls = type("C11SoC", (SoCMini,), {"mem_map": {"csr": csr_origin}})
+    envshim.quiet_stderr()
+    soc = cls(SimPlatform("SIM", [("sys_clk", 0, Pins(1)), ("sys_rst", 0, Pins(1))]), clk_freq=int(1e6),
+              bus_standard=std, bus_data_width=32, bus_interconnect="shared", bus_timeout=t)
+    if std == "wishbone":
+        m = wishbone.Interface(data_width=32, address_width=32, addressing="word")
+    elif std == "axi-lite":
+        m = axi_lite.AXILiteInterface(data_width=32, address_width=32)
+    else:
+        m = axi_full.AXIInterface(data_width=32, address_width=32)
+    soc.bus.add_master(name="tb", master=m)
+    soc.finalize()
+    tb = SocTb(std, "shared", t, 32, built=(soc, (m,), soc.bus))
+    icname = type(soc.bus._interconnect).__name__
+    exact = t if std == "wishbone" else t + 2
+    problems, timeouts = [], 0
+    for k in range(nops):
+        if k == 0 or rng.random() < 0.5:
+            addr = rng.choice((0x0, 0x20000000, csr_origin - 0x10000, 0x7ffffff0))
+            wr = rng.random() < 0.3
+            lat, d, err = tb.access(addr, write=wr, data=rng.getrandbits(32))
+            timeouts += 1
+            tag = "op %d (unmapped %s %#x, interconnect %s)" % (k, "write" if wr else "read", addr, icname)
+            if lat is None:
+                problems.append("%s: not terminated within %d cycles" % (tag, t + 40))
+                break
+            if lat != exact:
+                problems.append("%s: terminated after %d cycles, exact bound %d" % (tag, lat, exact))
+            if not err:
+                problems.append("%s: no error indication (data %s)" % (tag, hex(d) if d is not None else None))
+        else:
+            lat, d, err = tb.access(csr_origin + 4)          # ctrl.scratch, reset value 0x12345678
+            if lat is None or d != 0x12345678 or err:
+                problems.append("op %d (scratch CSR read after %d timeouts, interconnect %s): %r" % (k, timeouts, icname, (lat, d, err)))
+    be = tb.bus_errors()
+    if not problems and be != timeouts:
+        problems.append("bus_errors = %d after %d timed-out accesses (interconnect %s)" % (be, timeouts, icname))
+    return problems, timeouts
